@@ -682,3 +682,82 @@ def name_forms(ctx: Ctx, rule: str) -> None:
     ok2 = ok2 and len(sdef) == 1 and ast.unparse(sdef[0].value) == "self.params['_name_map_file'].get('nets.cfg', '')"
     ctx.record(rule + "b", "TABLE", fref2, "bridged_form = setless form with the net variant generalised ('.+'), anchored at a variant boundary and the end; flat nodes: setless form", ok2,
                {"returns": rets}, "" if ok2 else "the worker-invariant name form changed: equivalent nodes of different workers may no longer be linked")
+
+
+# ---------------------------------------------------------------------- identities
+def identity_forms(ctx: Ctx, rule: str) -> None:
+    """Identity of nodes and objects: built from prefix/suffix and the full name (the keys of all indices and result lookups)."""
+    want = {
+        f"{N_}.id": ["self.prefix", "'-'", "self.params['name']"],
+        f"{N_}.long_prefix": ["self.prefix", "'-'", "nets", "'.'", "vms"],
+        "cartgraph/object.py:TestObject.id": ["self.long_suffix", "'-'", "self.params['name']"],
+    }
+    for fref, parts in want.items():
+        f = ctx.repo.func(fref)
+        ctx.touch(fref)
+        rets = [r for r in ast.walk(f.node) if isinstance(r, ast.Return)]
+        got = norm.concat_parts(rets[0].value) if len(rets) == 1 else None
+        ctx.record(rule, "CONST", fref, f"{fref.split('.')[-1]} = " + " + ".join(parts), got == parts, {"found": got},
+                   "" if got == parts else f"the identity {fref.split(':')[1]} is built differently ({got}): distinct tests or objects may collide, or equal ones differ")
+    f = ctx.repo.func(f"{N_}.id_test")
+    rets = [r for r in ast.walk(f.node) if isinstance(r, ast.Return)]
+    ok = len(rets) == 1 and ast.unparse(rets[0].value) == "TestID(self.prefix, self.params['name'])"
+    ctx.record(rule + "t", "CONST", f.ref, "id_test = TestID(prefix, full name) (uid = prefix: distinct per retry prefix)", ok, {}, "" if ok else "the avocado test id of a node is built differently")
+    f = ctx.repo.func("cartgraph/object.py:TestObject.object_typed_params")
+    ctx.touch(f.ref)
+    body = [ast.unparse(s) for s in f.node.body if not (isinstance(s, ast.Expr) and isinstance(s.value, ast.Constant))]
+    ok2 = body == ["for composite in self.composites:\n    params = params.object_params(composite.suffix)", "return params.object_params(self.suffix).object_params(self.key)"]
+    ctx.record(rule + "p", "CONST", f.ref, "object parameters = params narrowed by every composite's suffix, then the object's suffix, then its type", ok2, {"body": body},
+               "" if ok2 else "the per-object view of test parameters changed (states of another object or type may be read)")
+    f = ctx.repo.func("cartgraph/object.py:TestObject.component_form")
+    rets = [r for r in ast.walk(f.node) if isinstance(r, ast.Return)]
+    ok3 = len(rets) == 1 and ast.unparse(rets[0].value) == "self.params['name'].replace(self.key + '.', '')"
+    ctx.record(rule + "c", "CONST", f.ref, "component_form = object name without its type prefix (used to restrict parents to the object's variant)", ok3, {},
+               "" if ok3 else "the variant form by which parents are restricted to an object's variant changed")
+    f = ctx.repo.func("cartgraph/object.py:TestObject.__init__")
+    st = {ast.unparse(s.targets[0]): ast.unparse(s.value) for s in ast.walk(f.node) if isinstance(s, ast.Assign)}
+    ok4 = st.get("self.suffix") == "suffix.split('_')[0]" and st.get("self._long_suffix") == "suffix"
+    ctx.record(rule + "s", "CONST", f.ref, "suffix = first component of the long suffix; long suffix kept whole (image_vm identifies the image of one vm)", ok4, {},
+               "" if ok4 else "object suffixes are derived differently")
+
+
+# ---------------------------------------------------------------------- lazy expansion predicates
+def lazy_predicates(ctx: Ctx, rule: str) -> None:
+    fref = f"{N_}.should_parse"
+    fn = ctx.repo.func(fref)
+    loop = the_loop(ctx, fref, ast.For, lambda l: ast.unparse(l.iter) == "self.shared_involved_workers", "loop over involved workers")
+    w = loop.target.id
+    views = loop_iteration_views(ctx, fref, loop, None)
+    problems = []
+    for v in views:
+        conds = norm.conj([v.cond_formula(i) for i, s in enumerate(v.steps) if s.kind == "cond"])
+        done = norm.conj([("atom", f"self.is_unrolled({w})"), ("atom", f"self.is_cleanup_ready({w})"), ("atom", f"empty({w}.restrs)")])
+        if v.path.exit == "return":
+            if not (isinstance(v.path.exit_node.value, ast.Constant) and v.path.exit_node.value.value is False) or not norm.implies(conds, done):
+                problems.append("should_parse answers False for a reason other than 'an unrestricted worker already unrolled and finished all children'")
+        elif not norm.implies(conds, norm.neg(done)):
+            problems.append("an unrestricted worker that unrolled and finished the node does not stop further parsing")
+    tail = [s for s in fn.node.body if isinstance(s, ast.Return)]
+    ok = not problems and len(views) >= 2 and len(tail) == 1 and isinstance(tail[0].value, ast.Constant) and tail[0].value.value is True
+    ctx.record(rule, "TABLE", fref, "should_parse: False iff some involved, unrestricted worker has unrolled the node and is cleanup-ready on it; else True", ok, {"paths": len(views)},
+               "" if ok else (problems[0] if problems else "should_parse changed shape"))
+    fref2 = f"{N_}.is_unrolled"
+    views2 = function_views(ctx, fref2, None, roles=["worker"])
+    rows = set()
+    bad = []
+    for v in views2:
+        conds = [ast.unparse(s.node) + ("" if s.pol else " [F]") for s in v.steps if s.kind == "cond"]
+        if v.path.exit == "raise":
+            rows.add("raise")
+            if PathEnum._raised_name(v.path.exit_node) != "RuntimeError" or "not self.is_flat()" not in conds:
+                bad.append("unexpected raise")
+        elif v.path.exit == "return":
+            val = v.path.exit_node.value
+            rows.add(str(val.value) if isinstance(val, ast.Constant) else "?")
+    f2 = ctx.repo.func(fref2)
+    src = ast.unparse(f2.node)
+    wn = f2.params()[1]
+    ok2 = not bad and rows == {"raise", "True", "False"} and "if self.is_shared_root():\n        return True" in src \
+        and f"{wn}.net.long_suffix in self.incompatible_workers" in src and f"if self.setless_form in node.id:\n            if {wn} and {wn}.id in node.id:\n                return True" in src
+    ctx.record(rule + "u", "TABLE", fref2, "is_unrolled: root -> True; composite -> RuntimeError; incompatible worker -> True; a child of the same set-invariant name for this worker -> True; else False",
+               ok2, {"rows": sorted(rows)}, "" if ok2 else "the test whether a flat node is already expanded for a worker changed")
